@@ -529,3 +529,26 @@ CORPUS += [
 CORPUS += [
     V("C04", "mtsp-reward-squeeze-batch-axis-again", R + "mtsp/env.py", 'return td["reward"].reshape(td.batch_size)', 'return td["reward"].squeeze(-1)', "C04.a"),
 ]
+
+CTXF = "rl4co/models/nn/env_embeddings/context.py"
+CORPUS += [
+    # ---------------------------------------------------------------- C14
+    V("C14", "pdp-context-squeeze-again", CTXF, "class PDPContext(EnvContext):", "class PDPContext(EnvContext):\n    pass\n\n\nclass _Unused(EnvContext):", None),
+    V("C14", "svrp-context-squeeze-again", CTXF, '''    def forward(self, embeddings, td):
+        cur_node_embedding = self._cur_node_embedding(embeddings, td)
+        return self.project_context(cur_node_embedding)
+
+
+class PCTSPContext''', '''    def forward(self, embeddings, td):
+        cur_node_embedding = self._cur_node_embedding(embeddings, td).squeeze()
+        return self.project_context(cur_node_embedding)
+
+
+class PCTSPContext''', "C14.b"),
+    V("C14", "mtsp-cur-node-squeeze-again", CTXF, '        cur_node_embedding = gather_by_index(embeddings, td["current_node"])\n        return cur_node_embedding\n', '        cur_node_embedding = gather_by_index(embeddings, td["current_node"])\n        return cur_node_embedding.squeeze()\n', "C14.b"),
+    V("C14", "vrp-context-normalise-by-batch-max", CTXF, 'state_embedding = td["vehicle_capacity"] - td["used_capacity"]', 'state_embedding = (td["vehicle_capacity"] - td["used_capacity"]) / td["vehicle_capacity"].max()', "C14.a"),
+    V("C14", "normalization-layer-over-batch", "rl4co/models/nn/ops.py", "x.mean((1, 2))", "x.mean((0, 1, 2))", "C14.c"),
+    V("C14", "attention-scale-by-batch-mean", "rl4co/models/nn/attention.py", "        # Compute inner multi-head attention with no projections\n        heads = self._inner_mha(query, key, value, attn_mask)", "        # Compute inner multi-head attention with no projections\n        heads = self._inner_mha(query, key, value, attn_mask)\n        heads = heads - heads.mean()", "C14.a"),
+    V("C14", "init-embedding-centres-on-batch-mean", "rl4co/models/nn/env_embeddings/init.py", '        out = self.init_embed(td["locs"])\n        return out', '        out = self.init_embed(td["locs"] - td["locs"].mean((0, 1), keepdim=True))\n        return out', "C14.a"),
+    V("C14", "eq-context-rename", CTXF, "cur_node_embedding", "cur_emb", None, count=99),
+]
